@@ -31,7 +31,7 @@ func runC01(e *Env) {
 	ruleC01Enc(e)
 	ruleC01Lang(e)
 	ruleDeleg(e, "C01.deleg", "date")
-	ruleLimit(e, "C01.limit", "date")
+	ruleLimitAccept(e, "C01.limit", "date")
 	e.S.Floor("C01.fmt", 8)
 	e.S.Floor("C01.enc", 12)
 	e.S.Floor("C01.lang", 6)
